@@ -26,3 +26,8 @@ pub static PASSES_RUN: std::sync::atomic::AtomicUsize = std::sync::atomic::Atomi
 /// pass (process-wide, appended by `run_update`).
 pub static PASS_LOG: std::sync::Mutex<Vec<Vec<(String, std::any::TypeId)>>> =
     std::sync::Mutex::new(Vec::new());
+
+/// The built-in filesystem watcher's event handler, without a watcher: `notify` events in, the
+/// entries it would send to the hot-reloading thread out.
+#[cfg(feature = "hot-reloading")]
+pub use crate::hot_reloading::verif::{id_of_path, WatcherProbe};
